@@ -96,6 +96,7 @@ namespace sim
   int spawn_pthread(void* (*start)(void*), void* arg, unsigned long* real_handle_out);
   bool task_finished(int id);
   int task_of_pthread(unsigned long h);
+  void mark_joined(int id);
   const VClock& final_vclock(int id);
   void set_blocked_desc(const char* d);
 
